@@ -28,7 +28,8 @@ func runC35(c *Ctx) {
 	isZero := P.FuncObj(pkg + ".(*Epoch).IsZero")
 
 	// leaves of a slice value through phis; each classified
-	sliceLeaves := func(v ssa.Value, at ssa.Instruction) []FlowPoint {
+	var sliceLeaves func(v ssa.Value, at ssa.Instruction) []FlowPoint
+	sliceLeaves = func(v ssa.Value, at ssa.Instruction) []FlowPoint {
 		var out []FlowPoint
 		phiLeaves(v, at, &out, map[*ssa.Phi]bool{})
 		return out
@@ -40,6 +41,62 @@ func runC35(c *Ctx) {
 		}
 		k, ok := ConstInt(el[0])
 		return ok && k == 0
+	}
+	// a private normalising helper (`func listOrZero(l []uint32) []uint32`: {0} exactly when l is
+	// empty, l otherwise) is looked through: its {0} leaf was checked inside it, its other leaf is
+	// the argument
+	helperChecked := map[ssa.Value]bool{}
+	plainLeaves := sliceLeaves
+	sliceLeaves = func(v ssa.Value, at ssa.Instruction) []FlowPoint {
+		var out []FlowPoint
+		for _, fp := range plainLeaves(v, at) {
+			cc, idx, ok := CallResult(fp.Val)
+			var h *ssa.Function
+			if ok && idx == 0 {
+				h = cc.Common().StaticCallee()
+			}
+			if h == nil || h.Pkg == nil || at.Parent() == nil || h.Pkg != at.Parent().Pkg || len(h.Blocks) == 0 || len(h.Params) != 1 || len(cc.Common().Args) != 1 {
+				out = append(out, fp)
+				continue
+			}
+			okShape := true
+			var exp []FlowPoint
+			empty := Cmp("len(l)==0", VLen(VParam(h, 0)), token.EQL, VConstInt(0))
+			for _, hl := range ReturnLeaves(h, 0) {
+				hv := Strip(hl.Val)
+				switch {
+				case isZeroLit(hv):
+					q := ReachQ{Fn: h, CutEdge: AtomEdges(empty)}
+					if hl.Instr != nil {
+						at2 := hl.Instr
+						q.Sink = func(in ssa.Instruction) bool { return in == at2 }
+					} else if hl.EdgeFrom != nil {
+						from, succ := hl.EdgeFrom, hl.EdgeSucc
+						if AtomEdges(empty)(from, succ) {
+							helperChecked[hv] = true
+							exp = append(exp, FlowPoint{Val: hv, Instr: at})
+							continue
+						}
+						q.SinkEdge = func(b *ssa.BasicBlock, s int) bool { return b == from && s == succ }
+					}
+					if q.Run().Found {
+						okShape = false
+					}
+					helperChecked[hv] = true
+					exp = append(exp, FlowPoint{Val: hv, Instr: at})
+				case hv == ssa.Value(h.Params[0]):
+					exp = append(exp, sliceLeaves(cc.Common().Args[0], at)...)
+				default:
+					okShape = false
+				}
+			}
+			if okShape && len(exp) > 0 {
+				out = append(out, exp...)
+			} else {
+				out = append(out, fp)
+			}
+		}
+		return out
 	}
 
 	// ---- R1
@@ -78,7 +135,7 @@ func runC35(c *Ctx) {
 		// the {0} default replaces only an empty list
 		for ai := 0; ai < 2; ai++ {
 			for li, sl := range sliceLeaves(cc.Common().Args[ai], cc) {
-				if isZeroLit(Strip(sl.Val)) {
+				if isZeroLit(Strip(sl.Val)) && !helperChecked[Strip(sl.Val)] {
 					c.GuardedFlow(fmt.Sprintf("%s-arg%d-default-only-when-empty#%d", key, ai, li+1), cr, sl,
 						[]Clause{{Cmp("len(list)==0", VLen(anyVal), token.EQL, VConstInt(0))}}, nil)
 				}
